@@ -25,6 +25,15 @@ QK = ["qalloc", "init", "qfree"]
 ERR = {"AssertionError": 1, "RuntimeError": 2, "ValueError": 3, "KeyError": 4}
 
 
+def _define_vanilla_mov():
+    """netqasm's executor has no operator for vanilla `mov`; its meaning (C07's mov_transfers) is a state
+    transfer onto a freshly initialised target.  On such inputs that is a SWAP; the oracle programs
+    re-initialise the source right after the move, so the state the source is left in does not matter."""
+    import sdk_pipeline
+
+    sdk_pipeline.GATES.setdefault("mov", np.array([[1, 0, 0, 0], [0, 0, 1, 0], [0, 1, 0, 0], [0, 0, 0, 1]], dtype=complex))
+
+
 class NvImpl:
     def __init__(self, repo):
         if sys.path[0] != repo:
@@ -40,6 +49,7 @@ class NvImpl:
         from netqasm.runtime import settings
         from netqasm.sdk.transpile import NVSubroutineTranspiler
 
+        _define_vanilla_mov()
         self.repo = repo
         self.op, self.core, self.nv, self.van = operand, core, nv, vanilla
         self.Debug, self.Subroutine, self.T = DebugInstruction, Subroutine, NVSubroutineTranspiler
@@ -100,7 +110,8 @@ class NvImpl:
         if k == "g1":
             return self.cls_g1[t[1]].from_operands([R(t[2])])
         if k == "rot":
-            return self.cls_rot[(flav, t[1])].from_operands([R(t[2]), op.Immediate(t[3]), op.Immediate(t[4])])
+            imm = lambda x: op.Template(x) if isinstance(x, str) else op.Immediate(x)  # noqa  (str = template name)
+            return self.cls_rot[(flav, t[1])].from_operands([R(t[2]), imm(t[3]), imm(t[4])])
         if k == "g2":
             return self.cls_g2[t[1]].from_operands([R(t[2]), R(t[3])])
         if k == "crot":
@@ -173,7 +184,8 @@ class NvImpl:
         if isinstance(ins, c.SingleQubitInstruction) and ins.mnemonic in G1:
             return ("g1", ins.mnemonic, rg(o[0]))
         if isinstance(ins, c.RotationInstruction):
-            return ("rot", ins.mnemonic[-1], rg(o[0]), o[1].value, o[2].value)
+            val = lambda x: x.name if isinstance(x, op.Template) else x.value  # noqa
+            return ("rot", ins.mnemonic[-1], rg(o[0]), val(o[1]), val(o[2]))
         if isinstance(ins, c.TwoQubitInstruction):
             return ("g2", ins.mnemonic, rg(o[0]), rg(o[1]))
         if isinstance(ins, c.ControlledRotationInstruction):
@@ -209,6 +221,26 @@ class NvImpl:
             return ("err", ERR[type(e).__name__], None)
         finally:
             self.settings.set_is_using_hardware(False)
+
+    def transpile_then_instantiate(self, prog, vals):
+        """real transpiler on the templated subroutine, then Subroutine.instantiate"""
+        sub = self.subroutine(prog)
+        try:
+            out = self.T(sub, debug=False).transpile()
+            templated = [self.view(i) for i in out.instructions]
+            out.instantiate(0, dict(vals))
+            return ("ok", [self.view(i) for i in out.instructions], templated)
+        except (AssertionError, RuntimeError, ValueError, KeyError) as e:
+            return ("err", ERR[type(e).__name__], None)
+
+    def instantiate_then_transpile(self, prog, vals):
+        sub = self.subroutine(prog)
+        try:
+            sub.instantiate(0, dict(vals))
+            out = self.T(sub, debug=False).transpile()
+            return ("ok", [self.view(i) for i in out.instructions], None)
+        except (AssertionError, RuntimeError, ValueError, KeyError) as e:
+            return ("err", ERR[type(e).__name__], None)
 
     def text(self, prog, flav="van"):
         try:
@@ -306,6 +338,16 @@ def _record_extra(pipe, ex):
 
 
 # ---------------------------------------------------------------- canonical encodings
+def code_templates(prog, codes):
+    """replace template names in rotation immediates by their (negative) integer codes"""
+    out = []
+    for t in prog:
+        if t[0] == "rot":
+            t = (t[0], t[1], t[2], codes[t[3]] if isinstance(t[3], str) else t[3], codes[t[4]] if isinstance(t[4], str) else t[4])
+        out.append(t)
+    return out
+
+
 def enc_reg(r):
     return [BANKS.index(r[0]), r[1]]
 
